@@ -18,26 +18,26 @@ from rv.gen import lastext
 
 ID = "C19"
 LEVEL = "fault_enumeration"
-ALPHA = ". : \" ' - = [ ( \\ a 1".split(" ") + [" "]
+ALPHA = ". : \" ' - = [ ( ) ] \\ a 1".split(" ") + [" "]
 DOCUMENTED = ['"# Surface Coords: 1,000\' FNL & 2,000\' FWL"', "this line has no delimiters at all", "LATI      DEG", ".", ":", ". :", "..", "::",
               "a.", ".a", "a:", ":a", "a b c", "-----", "=====", "[", "(", "\\", "\"", "'", "a.b.c.d : e : f : g", "1000 lbf", "UWI . : :",
               "%MyComment line", "A.M 12:30:15 : t", "-999.25", "1670.0 123.45 2550.0", "STRT", "strt.m", "   .   :   ", "\t.\t:\t",
               "DEPT.M : 1 DEPTH : extra : colons", "JOBID . 184467440737095516160 : JOB TICKET", "X.  -99999999999999999999 : y", "BIG. 1e400 : z",
               "SMALL. -1e-400 : z", "N. nan : n", "I. -inf : i", "H. 0x1F : h", "U. 1_000 : u", "V. 9223372036854775808 : just too big", "W. 1,5e400 : w",
-              "E. 1e : e", "P. +.e5 : p", "L.M " + "9" * 400 + " : long integer", "K.K 1.7976931348623157e309 : k", "Z : 99999999999999999999999", "*", "?", "$", "{", "}", "a\\b", "a]", "a)", "é.ü : ñ", "a.1 : x", "0", "0.", ".0"]
+              "E. 1e : e", "P. +.e5 : p", "L.M " + "9" * 400 + " : long integer", "K.K 1.7976931348623157e309 : k", "Z : 99999999999999999999999", "X.() 1 : y", ".[]", "what.[()] is : this", "Q.(( 5 : q", "R.)( : r", "S.[] : s", "*", "?", "$", "{", "}", "a\\b", "a]", "a)", "é.ü : ñ", "a.1 : x", "0", "0.", ".0"]
 STEER_RE = re.compile(r"vers|wrap|dlm|null", re.I)
-RULE = ("junk lines: all %d strings of length <= 3 over the alphabet {. : \" ' - = [ ( \\ a 1 blank} (exhaustive), %d documented/"
+RULE = ("junk lines: all %d strings of length <= 3 over the alphabet {. : \" ' - = [ ( ) ] \\ a 1 blank} (exhaustive), %d documented/"
         "adversarial examples, random printable ASCII up to 200 characters, 5 000-character lines; excluded: lines starting "
         "with '~' and lines containing VERS/WRAP/DLM/NULL; sites: first/middle/last line position of every ~V, ~W, ~P and "
         "custom section (never ~C); counts 1..5 per file; bases: generated tagged files (v1.2 and v2.0) and readable corpus "
         "files; each (base, junk set) is read with and without ignore_header_errors. distinct = distinct (junk line, section "
         "kind, position class, base kind); non-trivial = junk that is not blank/comment"
-        % (sum(12 ** n for n in (1, 2, 3)), len(DOCUMENTED)))
+        % (sum(14 ** n for n in (1, 2, 3)), len(DOCUMENTED)))
 ASSUMPTIONS = [
     "a junk line that happens to parse becomes an additional item; genuine items must then still appear, unchanged and in order, as a subsequence",
     "session mnemonics of genuine items may receive a duplicate suffix when a junk line parses to the same name (original mnemonics may not change)",
 ]
-EXHAUSTIVE = "all junk strings of length <= 3 over the 12-character alphabet, each in a ~V, ~W, ~P and custom section"
+EXHAUSTIVE = "all junk strings of length <= 3 over the 14-character alphabet, each in a ~V, ~W, ~P and custom section"
 REQUIRED = ["reads_with_flag", "reads_without_flag", "without_flag_header_errors", "genuine_items_checked",
             "data_comparisons", "section_V", "section_W", "section_P", "section_X"]
 SOFT_DEADLINE = {"quick": 90, "thorough": 1500}
